@@ -121,6 +121,7 @@ package scorch
 //@   ensures implies(result1 == nil, tfrShape(i) && tfrCursor(i))
 //@   ensures implies(result1 == nil && result0 != nil, i.gstarted && i.glast == idNum(result0.ID) && i.gseg == i.segmentOffset) && implies(result0 == nil, i.gstarted == old(i.gstarted) && i.glast == old(i.glast) && i.gseg == old(i.gseg))
 //@   ensures i.snapshot == old(i.snapshot) && i.iterators == old(i.iterators)
+//@   ensures implies(old(i.segmentOffset) >= len(i.iterators), result0 == nil)
 //@   ensures implies(result1 == nil && result0 != nil, implies(old(i.gstarted), idNum(result0.ID) > old(i.glast)) && idNum(result0.ID) >= i.snapshot.offsets[old(i.segmentOffset)] && i.currPosting != nil && i.currID == result0.ID)
 //@   ensures implies(result1 == nil && result0 != nil && old(i.segmentOffset) < len(i.iterators) && old(i.iterators[i.segmentOffset].pdone), old(i.segmentOffset) + 1 < len(i.iterators) && idNum(result0.ID) >= i.snapshot.offsets[old(i.segmentOffset)+1])
 //@   loop 0: invariant tfrShape(i) && tfrCursor(i) && i.segmentOffset >= old(i.segmentOffset) && i.gstarted == old(i.gstarted) && i.glast == old(i.glast) && i.gseg == old(i.gseg) && rv != nil && i.snapshot == old(i.snapshot) && i.iterators == old(i.iterators)
